@@ -3,7 +3,7 @@ from __future__ import annotations
 
 from vk.core import Facet
 from vk.refmodel import canon, canon_nodes, canon_str, well_typed
-from vk.spec import Flags, spec_forms, spec_str
+from vk.spec import Flags, spec_forms, spec_str, specs
 from vk.world import World, exc_bucket, is_library_error, world_cases
 
 LEVEL = "exploration"
@@ -241,4 +241,92 @@ class RedeclaredField(Facet):
             w1.cleanup()
 
 
-FACETS = [TypedOps(), StackPlain(), StackRefined(), RedeclaredField()]
+class CooperativeSearch(Facet):
+    """CooperativeGP co-evolves two species with two DIFFERENT grammars (default representations):
+    every first argument the fitness function receives must be a well-typed program of grammar 1,
+    every second one a well-typed program of grammar 2, and so must the returned pair."""
+
+    name = "cooperative_gp_two_grammars"
+
+    def budget(self, tier):
+        return (6, 4) if tier == "quick" else (100, 8)
+
+    def strategy(self, tier):
+        from hypothesis import strategies as st
+
+        fl = Flags(dependent=False, user_mh=False, max_concrete=5, max_abstract=2, sibling=False, bare_lists=False, max_list_size=2)
+        return st.builds(
+            lambda s1, s2, seed, default_reps: {"spec1": s1, "spec2": s2, "seed": seed, "default_representations": default_reps},
+            specs(fl), specs(fl), st.integers(0, 2**31), st.sampled_from([True, True, False]),
+        )
+
+    def run(self, case, rec):
+        from geneticengine.algorithms.gp.cooperativegp import CooperativeGP
+        from geneticengine.evaluation.budget import EvaluationBudget
+        from geneticengine.random.sources import NativeRandomSource
+        from geneticengine.representations.tree.initializations import MaxDepthDecider
+        from geneticengine.representations.tree.treebased import TreeBasedRepresentation
+        from vk.refmodel import SpecInfo
+        from vk.spec import materialise
+
+        m1, m2 = materialise(case["spec1"]), materialise(case["spec2"])
+        try:
+            try:
+                g1, g2 = m1.grammar(), m2.grammar()
+            except Exception:  # noqa: BLE001
+                rec.discard()
+                return
+            if g1.get_min_tree_depth() >= 1000 or g2.get_min_tree_depth() >= 1000:
+                rec.discard()
+                return
+            i1, i2 = SpecInfo(case["spec1"], m1.classes), SpecInfo(case["spec2"], m2.classes)
+            bad = []
+
+            def judge(p, info, which, how):
+                errs = well_typed(p, ["ref", info.start], info)
+                if errs and not bad:
+                    bad.append((which, how, errs[0], canon_str(canon(p, info)) if not errs[0].clause.startswith("not-") else repr(p)[:120]))
+
+            def f(a, b):
+                judge(a, i1, 1, "fitness-arg")
+                judge(b, i2, 2, "fitness-arg")
+                return float(len(repr(a)) % 7 - len(repr(b)) % 5)
+
+            r = NativeRandomSource(case["seed"])
+            kw = dict(budget=EvaluationBudget(8))
+            reps = {}
+            if not case["default_representations"]:
+                reps = dict(
+                    representation1=TreeBasedRepresentation(g1, MaxDepthDecider(r, g1, g1.get_min_tree_depth() + 2)),
+                    representation2=TreeBasedRepresentation(g2, MaxDepthDecider(r, g2, g2.get_min_tree_depth() + 2)),
+                )
+            rec.label("default-representations" if case["default_representations"] else "explicit-representations")
+            try:
+                b1, b2 = CooperativeGP(g1, g2, f, population1_size=3, population2_size=3, coevolutions=2, random=r, kwargs1=dict(kw), kwargs2=dict(kw), **reps).search()
+            except Exception as e:  # noqa: BLE001
+                if is_library_error(e) or isinstance(e, RecursionError):
+                    rec.discard()
+                    rec.label("discarded:" + type(e).__name__)
+                    return
+                if not bad:
+                    rec.discard()
+                    rec.label("discarded:" + type(e).__name__)
+                    return
+                b1 = b2 = None
+            if b1 is not None:
+                judge(b1, i1, 1, "search-result")
+                judge(b2, i2, 2, "search-result")
+            rec.nontrivial((spec_str(case["spec1"]), spec_str(case["spec2"]), case["seed"]))
+            rec.sample({"spec1": spec_str(case["spec1"]), "spec2": spec_str(case["spec2"])}, limit=2)
+            if bad:
+                which, how, er, txt = bad[0]
+                rec.fail(
+                    f"C01/cooperative/species-{which}/{er.clause}",
+                    f"CooperativeGP ({'default' if case['default_representations'] else 'explicit'} representations): {how} #{which} is not a program of grammar {which}: {er!r}; value {txt}; grammar 1 {spec_str(case['spec1'])}; grammar 2 {spec_str(case['spec2'])}",
+                )
+        finally:
+            m1.cleanup()
+            m2.cleanup()
+
+
+FACETS = [TypedOps(), StackPlain(), StackRefined(), RedeclaredField(), CooperativeSearch()]
